@@ -252,6 +252,9 @@ def _messages_for_transport(case: Dict[str, Any]) -> List[Tuple[Any, Dict[str, A
 
     i, payload, method = case.get("id", 1), case.get("payload", {}), case.get("method", "x/y")
     code, emsg = case.get("code", -32000), case.get("message", "m")
+    if case.get("pad"):
+        # an inlined blob: the serialised message is larger than a pipe buffer / any write-slicing threshold
+        payload = dict(payload, blob=("x\u00e9" * (case["pad"] // 2 + 1))[: case["pad"]])
     return [
         (J.create_request(method, payload, id=i), {"kind": "request", "id": i, "method": method, "params": payload}),
         (J.create_notification(method, payload), {"kind": "notification", "method": method, "params": payload}),
@@ -263,6 +266,9 @@ def _messages_for_transport(case: Dict[str, Any]) -> List[Tuple[Any, Dict[str, A
         (J.create_notification(method), {"kind": "notification", "method": method, "absent": ["params", "id", "result", "error"]}),
         (J.JSONRPCMessage.create_notification(method), {"kind": "notification", "method": method, "absent": ["params", "id", "result", "error"]}),
     ]
+
+
+BATCH_LINE = b'[{"jsonrpc":"2.0","method":"notifications/message","params":{"level":"info","data":1}}]\n'
 
 
 def check_stdio_writer(case: Dict[str, Any]) -> Outcome:
@@ -280,10 +286,22 @@ def check_stdio_writer(case: Dict[str, Any]) -> Outcome:
         with patched_open_process(procs):
             async with StdioClient(stdio_params()) as client:
                 _r, w = client.get_streams()
-                for m, _ in msgs:
+                if inbound:
+                    client.set_protocol_version("2025-06-18")  # the reader task answers server batches with -32600 on the same stdin
+                for k_, (m, _) in enumerate(msgs):
+                    if inbound.get(k_) == -1:
+                        procs[0].stdout.feed(BATCH_LINE)
                     await w.send(m)
+                    if inbound.get(k_, -1) >= 0:
+                        # the server's batch arrives d scheduler turns into the write of message k
+                        for _y in range(inbound[k_]):
+                            await asyncio.sleep(0)
+                        procs[0].stdout.feed(BATCH_LINE)
                 await asyncio.sleep(0.05)
 
+    inbound = {k: d for k, d in case.get("inbound", []) if k < len(msgs)}
+    if inbound or case.get("pad"):
+        out.classes = out.classes + (("stdio-writer:inbound-batch-rejections",) if inbound else ()) + (("stdio-writer:lines>64KiB",) if case.get("pad", 0) > 65536 else ())
     run_virtual(main)
     data = procs[0].stdin.data
     lines = data.split(b"\n")
@@ -291,6 +309,24 @@ def check_stdio_writer(case: Dict[str, Any]) -> Outcome:
         out.fail("stdio-writer-unterminated-line", repr(data[-80:]))
         return out
     lines = lines[:-1]
+    if inbound:
+        # every line on the wire - the library's own batch rejections included - must be a whole JSON-RPC object
+        keep, rej = [], 0
+        for ln in lines:
+            try:
+                v_ = json.loads(ln.decode("utf-8"))
+            except Exception:
+                out.fail("stdio-writer-line-not-json", f"{ln[:120]!r} ... ({len(ln)} bytes)")
+                return out
+            if isinstance(v_, dict) and v_.get("id") is None and "method" not in v_ and isinstance(v_.get("error"), dict) and v_["error"].get("code") == -32600:
+                rej += 1
+                roundtrip_check(out, "stdio-batch-rejection", v_, {"kind": "error", "id": None})
+            else:
+                keep.append(ln)
+        if rej != len(inbound):
+            out.fail("stdio-batch-rejection-count", f"{rej} rejection lines for {len(inbound)} inbound batches")
+            return out
+        lines = keep
     if len(lines) != len(msgs):
         out.fail("stdio-writer-line-count", f"{len(lines)} lines for {len(msgs)} messages")
         return out
@@ -465,6 +501,12 @@ def cases(draw, emitters: List[str]):
         case["tokens"] = draw(st.lists(st.one_of(st.integers(0, 9), st.sampled_from(["a", "b", "tok-\u00e9"])), min_size=2, max_size=4, unique_by=lambda t: (type(t).__name__, t)))
         case["no_params"] = draw(st.booleans())
         case["id"] = draw(st.one_of(st.integers(0, 1000), st.sampled_from(["r", "7"])))
+    if em == "stdio-writer":
+        if draw(st.integers(0, 3)) == 0:
+            case["pad"] = draw(st.sampled_from([30000, 66000, 70000, 140000]))
+        if draw(st.integers(0, 2)) == 0:
+            ks = sorted(set(draw(st.lists(st.integers(0, 8), min_size=1, max_size=3))))
+            case["inbound"] = [[k, draw(st.sampled_from([-1, 0, 1, 2, 3, 5]))] for k in ks]
     return case
 
 
